@@ -36,8 +36,8 @@ LatestAnswers(d, todayOnly) ==
   LET S == {r \in RunsOf(d) : ~todayOnly \/ IsToday(r)} IN
   IF S = {} THEN {"nodata"}
   ELSE IF HasStatus(Newest(S)) THEN {Last(Newest(S))} ELSE {"any"}
-\* recent(n): the n most recently started runs, newest first (runs without any status have nothing to show)
-Recent(d, n) == LET top == SelectSeq(TopN(RunsOf(d), n), HasStatus) IN [i \in DOMAIN top |-> Last(top[i])]
+\* recent(n): the n most recently started runs that have a status to show, newest first
+Recent(d, n) == LET top == TopN({r \in RunsOf(d) : HasStatus(r)}, n) IN [i \in DOMAIN top |-> Last(top[i])]
 
 \* ---- operations ------------------------------------------------------------------------
 Without(S) == [r \in Reqs \ S |-> runs[r]]
